@@ -1,20 +1,4 @@
 //! vschema: checks over the schema front end (parser, diagnostics, formatter, code generator).
-#![allow(dead_code)]
-mod batch;
-mod c16;
-mod c17;
-mod c18;
-mod c20;
-mod contract;
-mod front;
-mod gencrate;
-mod irslots;
-mod model;
-mod print;
-mod repo;
-mod text;
-mod upstream;
-
 fn main() {
-    vcommon::main(&[&c16::DEF, &c17::DEF, &c18::DEF, &c20::DEF])
+    vcommon::main(&[&schema::c16::DEF, &schema::c17::DEF, &schema::c18::DEF, &schema::c20::DEF])
 }
